@@ -116,7 +116,7 @@ let err_class = function
   | EOs ENOENT -> "ENOENT" | EOs ENOTDIR -> "ENOTDIR" | EOs ELOOP -> "ELOOP" | EOs EACCES -> "EACCES" | EOs _ -> "other"
 
 let c17_clauses = [ "close-releases-all"; "watchlist-user-only"; "removed-not-listed"; "remove-of-added-fails";
-                    "deleted-file-descriptor-open"; "all-removed-empty"; "unaccounted-descriptor" ]
+                    "deleted-file-descriptor-open"; "all-removed-empty"; "unaccounted-descriptor"; "remove-of-unadded-succeeds" ]
 
 let () =
   let cfg = ref kq_cfg_repo in
